@@ -60,6 +60,13 @@ TypeError(t) ==
                             IF bad # {} THEN TypeError(t.ps[CHOOSE j \in bad : TRUE].t) ELSE TypeError(t.r)
       [] OTHER -> "ok"
 
+RECURSIVE ContainsFn(_)
+ContainsFn(t) ==
+    CASE t.k = "fn" -> TRUE
+      [] t.k \in {"list", "opt"} -> ContainsFn(t.t)
+      [] t.k = "obj" -> \E j \in 1..Len(t.fs) : ContainsFn(t.fs[j].t)
+      [] OTHER -> FALSE
+
 RECURSIVE ContainsAny(_)
 ContainsAny(t) ==
     CASE t.k = "any" -> TRUE
@@ -223,7 +230,7 @@ CheckArgs(env, ctx, fn, args, j, acc) ==
     ELSE LET a == TypeOf(env, ctx, args[j]) IN
          IF a.c # "ok" THEN a
          ELSE IF a.t.k = "null" THEN Fail("ArgMismatch")                         \* a null-typed expression is no argument
-         ELSE IF ctx.spawn /\ a.t.k = "fn" THEN Fail("ArgMismatch")              \* closures do not cross threads
+         ELSE IF ctx.spawn /\ ContainsFn(a.t) THEN Fail("ArgMismatch")          \* closures do not cross threads, inside containers neither
          ELSE LET want == IF IsVar(fn) THEN (IF j <= Len(fn.lead) THEN fn.lead[j] ELSE TNever) ELSE fn.ps[j].t IN
               IF ~Compat(a.t, want, TRUE) THEN Fail("ArgMismatch")
               ELSE CheckArgs(env, ctx, fn, args, j + 1, [acc EXCEPT !.nv = @ \/ a.nv, !.pr = @ \o a.pr])
